@@ -12,7 +12,7 @@
    type and id, base-less addresses in 32-bit mode ([disp32]) and in 64-bit mode (absolute / RIP-relative guessing against
    the base address, zero-extension 67h, AbsToRel relocation), 16-bit addressing; not: label / rip bases (EncPathModel). *)
 From Coq Require Import ZArith NArith List Bool.
-From Verif Require Import EmitState.EmitStateModel EmitState.LookupModel X86Validate.ValidateModel.
+From Verif Require Import EmitState.EmitStateModel EmitState.LookupModel EmitState.EncPathModel X86Validate.ValidateModel.
 From VerifGen Require Import C14Tables X86Sigs.
 Import ListNotations.
 Local Open Scope Z_scope.
@@ -129,7 +129,9 @@ Definition mem_cmd (a : arch) (has_base_address : bool) (s : state) (add_id : Z)
 (* ---------------------------------------------------------------- VEX + VSIB: vgatherdps xmm|ymm, [base + xmm|ymm*s + d], xmm|ymm
    kEncodingVexRmvRm_VM (Reg, Mem, Reg) -> opcode_l_by_vmem (ll_by_reg_type_table[index_type]) and opcode_l_by_size
    (ll_by_size_div_16_table[size / 16]) -> EmitVexEvexM (segment / address-size override, VEX3 prefix: map 0F38) ->
-   EmitModVSib.  Only the VEX form is modelled: register ids >= 16 or a 512-bit index/size select EVEX (MUnsupported). *)
+   EmitModVSib.  This operand form has no EVEX encoding: register ids >= 16 are refused with kInvalidPhysId (the generator
+   produces them only when the sweep `c14_harness sweep-vexonly` finds the repair in place); a 512-bit index/size is
+   MUnsupported (the validator refuses it). *)
 Definition kInvalidInstruction := 26.
 
 Record vsibf := mkVsib { v_type : Z; v_dst : Z; v_mask : Z; v_dsize : Z; v_mem : memf }.   (* v_mem.m_dst is unused *)
@@ -144,7 +146,9 @@ Definition x86_vgather_encode (x64 : bool) (v : vsibf) : mres :=
   let nao := if Z.land rm_info (if x64 then 128 else 64) =? 0 then 0 else 1 in
   let has_index_reg := negb (m_itype m =? 0) in
   let ll := Z.max ll_v ll_s in
-  if (16 <=? v_dst v) || (16 <=? v_mask v) || (has_index_reg && (16 <=? m_iid m)) || (1073741824 <=? ll) then MUnsupported else
+  (* the three-operand (vector mask) form exists VEX-encoded only: ids 16..31 are refused (fixes/C14-vex-only-high-registers) *)
+  if (16 <=? v_dst v) || (16 <=? v_mask v) || (has_index_reg && (16 <=? m_iid m)) then MErr kInvalidPhysId else
+  if 1073741824 <=? ll then MUnsupported else
   let pre := nseg + nao + 4 in
   let rel := sext 32 (m_off m) in
   if Z.land rm_info 2 =? 0 then MErr kInvalidInstruction                 (* VSIB without an index register *)
@@ -179,3 +183,280 @@ Definition vsib_cmd (a : arch) (inst_id : Z) (v : vsibf) : option cmd :=
 (* the index types the strict validator lets through (its allowed_mem_index_regs masks, dumped into C14Tables) *)
 Definition index_type_allowed (it : Z) : Prop :=
   it = 0 \/ Z.testbit x86c_allowed_mem_index_regs_x86 it = true \/ Z.testbit x86c_allowed_mem_index_regs_x64 it = true.
+
+(* ---------------------------------------------------------------- push / pop of a segment register
+   kEncodingX86Push / kEncodingX86Pop (Reg, segment): `segment >= SReg::kIdCount -> InvalidSegment` (pop: also CS), then
+   opcode_push_sreg_table[segment] / opcode_pop_sreg_table[segment], EmitX86Op: emit_mm_and_opcode reads
+   opcode_mm_table[mm of that opcode].  The register type field is kSegment (25), the id is arbitrary. *)
+Definition kInvalidSegment := 49.
+Definition kRegTypeSegment := 25.
+Definition kSegCs := 2.
+
+Definition x86_pushpop_sreg_encode (is_pop : bool) (id : Z) : mres :=
+  if (x86c_sreg_id_count <=? id) || (is_pop && (id =? kSegCs)) then MErr kInvalidSegment else
+  bind_l (lookup (if is_pop then x86_opcode_pop_sreg_table else x86_opcode_push_sreg_table) id) (fun opc =>
+  bind_l (lookup x86_opcode_mm_table (Z.land (Z.shiftr opc x86c_mm_shift) x86c_mm_index_max)) (fun mm_size =>
+  MOk (mm_size + 1) 0)).
+
+Definition validate_pushpop_sreg (x64 : bool) (inst_id id : Z) : Z :=
+  Z.of_N (validate x86_vtables false x64 false
+            {| vi_id := Z.to_N inst_id; vi_options := 0%N; vi_extra_type := 0%N; vi_extra_id := 0%N |}
+            [OReg (Z.to_N kRegTypeSegment) (Z.to_N id)]).
+
+Definition x86_pushpop_sreg (x64 is_pop : bool) (inst_id id : Z) : mres :=
+  let e := validate_pushpop_sreg x64 inst_id id in
+  if e =? 0 then x86_pushpop_sreg_encode is_pop id else MErr e.
+
+Definition pushpop_cmd (a : arch) (is_pop : bool) (inst_id id : Z) : option cmd :=
+  match x86_pushpop_sreg (match a with X86_64 => true | _ => false end) is_pop inst_id id with
+  | MOk n dr => Some (CInst (EncOk n None false dr 0 0))
+  | MErr e => Some (CInst (EncErr e))
+  | MStuck | MUnsupported => None
+  end.
+
+(* ---------------------------------------------------------------- a64: load / store addressing (kEncodingBaseLdSt)
+   a64assembler.cpp `case InstDB::kEncodingBaseLdSt` for (Reg, Mem) with a register base (label / literal forms belong to
+   EncPathModel): check_gp_type / check_gp_id of the data register, check_mem_base_index_rel, the register-index arm
+   (shift_op_to_ld_st_opt_map[shift_op], index width, write-back, scale), the immediate arm (pre/post simm9, scaled
+   uimm12, else the ldur/stur fallback `Case_BaseLdurStur` through _inst_info_table[u_alt_inst_id] and baseRM_SImm9[..]),
+   and the EmitOp_MemBase_Rn5 / EmitOp_MemBaseIndex_Rn5_Rm16 tails.  The a64 strict validator is a no-op (a64instapi.cpp
+   validate returns Ok), so these checks are the only line of defence.  Every table read goes through `lookup`. *)
+Definition kInvalidAddressScale := 45.
+Definition a64_path_constants : list Z := [kInvalidSegment; kInvalidInstruction; kInvalidAddressScale].
+
+Record a64memf := mkA64Mem {
+  a_rtype : Z; a_rid : Z;        (* type and id of the data register (operand 0) *)
+  a_btype : Z; a_bid : Z;        (* base register type and id *)
+  a_itype : Z; a_iid : Z;        (* index register type and id *)
+  a_shiftop : Z; a_shift : Z;    (* shift operation (4-bit field) and shift amount (5-bit field) *)
+  a_mode : Z;                    (* offset mode: 0 fixed, 1 pre-index, 2 post-index (2-bit field) *)
+  a_off : Z }.                   (* the signed 32-bit offset (a register base leaves only 32 bits) *)
+
+Definition a64_check_gp_id (id hi : Z) : bool := (id <? 31) || (id =? hi).
+Definition a64_gp_type_ok (allowed rtype : Z) : bool := Z.testbit (Z.shiftl allowed a64c_reg_type_gp32) rtype.
+Definition a64_gp_x (allowed rtype : Z) : Z := Z.land (diff32 rtype a64c_reg_type_gp32) allowed.
+Definition is_int_n (n v : Z) : bool := (- 2 ^ (n - 1) <=? v) && (v <? 2 ^ (n - 1)).
+
+(* check_mem_base_index_rel *)
+Definition a64_check_mem_base_index_rel (m : a64memf) : bool :=
+  let bmask := Z.lor (Z.lor 1 (Z.shiftl 1 a64c_reg_type_label_tag)) (Z.shiftl 1 a64c_reg_type_gp64) in
+  let imask := Z.lor (Z.lor 1 (Z.shiftl 1 a64c_reg_type_gp32)) (Z.shiftl 1 a64c_reg_type_gp64) in
+  if negb (Z.testbit bmask (a_btype m)) then false else
+  if a64c_reg_type_label_tag <? a_btype m then
+    if negb (Z.testbit imask (a_itype m)) then false else
+    if a_itype m =? 0 then true else (a_off m =? 0)
+  else a_itype m =? 0.
+
+Definition a64_check_mem_base (m : a64memf) : bool := (a_btype m =? a64c_reg_type_gp64) && (a_bid m <=? 31).
+Definition a64_emit_mem_base (m : a64memf) : mres := if a64_check_mem_base m then MOk 4 0 else MErr kInvalidAddress.
+Definition a64_emit_mem_base_index (m : a64memf) : mres :=
+  if negb (a64_check_mem_base m) then MErr kInvalidAddress else
+  if (30 <? a_iid m) && negb (a_iid m =? a64c_id_zr) then MErr kInvalidPhysId else MOk 4 0.
+
+(* the rows of the instruction tables one load / store instruction reads *)
+Record ldst_row := mkLdSt { l_allowed : Z; l_ushift : Z; l_literal : Z;
+                            l2_allowed : Z; l2_hi : Z; l2_shift : Z; l2_prepost : Z }.
+Inductive rowres := RRow (r : ldst_row) | ROther | RStuck.
+Definition bind_r (o : option Z) (f : Z -> rowres) : rowres := match o with Some v => f v | None => RStuck end.
+
+Definition a64_norm_id (inst_id : Z) : Z := if a64c_inst_id_count <=? inst_id then 0 else inst_id.   (* `inst_id >= _kIdCount -> 0` *)
+Definition a64_ldst_row_at (id : Z) : rowres :=
+  bind_r (lookup a64_inst_encoding id) (fun enc =>
+  if negb (enc =? a64c_encoding_base_ldst) then ROther else
+  bind_r (lookup a64_inst_encoding_data_index id) (fun ei =>
+  bind_r (lookup a64_ldst_reg_type ei) (fun allowed =>
+  bind_r (lookup a64_ldst_u_offset_shift ei) (fun us =>
+  bind_r (lookup a64_ldst_literal_op ei) (fun lit =>
+  bind_r (lookup a64_ldst_u_alt_inst_id ei) (fun alt =>
+  bind_r (lookup a64_inst_encoding_data_index alt) (fun ei2 =>    (* _inst_info_table[u_alt_inst_id], unguarded *)
+  bind_r (lookup a64_simm9_reg_type ei2) (fun allowed2 =>
+  bind_r (lookup a64_simm9_reg_hi_id ei2) (fun hi2 =>
+  bind_r (lookup a64_simm9_imm_shift ei2) (fun sh2 =>
+  bind_r (lookup a64_simm9_pre_post_op ei2) (fun pp2 =>
+  RRow (mkLdSt allowed us lit allowed2 hi2 sh2 pp2)))))))))))).
+Definition a64_ldst_row (inst_id : Z) : rowres := a64_ldst_row_at (a64_norm_id inst_id).
+
+(* Case_BaseLdurStur, entered from the immediate arm (register base, no index) *)
+Definition a64_ldur_encode (r : ldst_row) (m : a64memf) : mres :=
+  if negb (a64_gp_type_ok (l2_allowed r) (a_rtype m)) then MErr kInvalidInstruction else
+  if negb (a64_check_gp_id (a_rid m) (l2_hi r)) then MErr kInvalidPhysId else
+  let o32 := Z.shiftr (a_off m) (l2_shift r) in
+  if negb ((Z.shiftl o32 (l2_shift r)) mod 2 ^ 32 =? (a_off m) mod 2 ^ 32) then MErr kInvalidDisplacement else
+  if negb (is_int_n 9 o32) then MErr kInvalidDisplacement else
+  if a_mode m =? 0 then a64_emit_mem_base m
+  else if l2_prepost r =? 0 then MErr kInvalidInstruction else a64_emit_mem_base m.
+
+Definition a64_ldst_encode_row (r : ldst_row) (m : a64memf) : mres :=
+  if negb (a64_gp_type_ok (l_allowed r) (a_rtype m)) then MErr kInvalidInstruction else
+  if negb (a64_check_gp_id (a_rid m) a64c_zr) then MErr kInvalidPhysId else
+  let x := a64_gp_x (l_allowed r) (a_rtype m) in
+  let imm_shift := l_ushift r + Z.land x (if l_ushift r =? 2 then 1 else 0) in
+  if negb (a64_check_mem_base_index_rel m) then MErr kInvalidAddress else
+  if a64c_reg_type_label_tag <? a_btype m then
+    if negb (a_itype m =? 0) then
+      bind_l (lookup a64_shift_op_to_ld_st_opt_map (a_shiftop m)) (fun opt =>
+      if opt =? 255 then MErr kInvalidAddress else
+      if negb (a_itype m =? (if Z.testbit opt 0 then a64c_reg_type_gp64 else a64c_reg_type_gp32)) || negb (a_mode m =? 0)
+      then MErr kInvalidAddress else
+      if negb (a_shift m =? 0) && negb (a_shift m =? imm_shift) then MErr kInvalidAddressScale else
+      a64_emit_mem_base_index m)
+    else
+      if negb (is_int_n 32 (a_off m)) then MErr kInvalidDisplacement else
+      if negb (a_mode m =? 0) then
+        if negb (is_int_n 9 (a_off m)) then MErr kInvalidDisplacement else a64_emit_mem_base m
+      else
+        let u := (a_off m) mod 2 ^ 32 in
+        let imm12 := Z.shiftr u imm_shift in
+        if (imm12 <? 4096) && ((Z.shiftl imm12 imm_shift) mod 2 ^ 32 =? u) then a64_emit_mem_base m
+        else a64_ldur_encode r m
+  else if l_literal r =? 0 then MErr kInvalidAddress else MUnsupported.
+
+Definition a64_ldst (inst_id : Z) (m : a64memf) : mres :=
+  match a64_ldst_row inst_id with
+  | RRow r => a64_ldst_encode_row r m
+  | ROther => MUnsupported
+  | RStuck => MStuck
+  end.
+
+Definition a64_ldst_cmd (inst_id : Z) (m : a64memf) : option cmd :=
+  match a64_ldst inst_id m with
+  | MOk n dr => Some (CInst (EncOk n None false dr 0 0))
+  | MErr e => Some (CInst (EncErr e))
+  | MStuck | MUnsupported => None
+  end.
+
+(* ---------------------------------------------------------------- x86: shift / rotate of a register by an immediate
+   kEncodingX86Rot (Reg, Imm): add_arith_by_size(size), FIXUP_GPB for byte registers, `imm & 0xFF`, the by-one short form
+   unless kLongForm, then EmitX86R: emit_pp (opcode_pp_table[pp]), REX (extract_rex(options) | rb >> 3, is_rex_invalid),
+   emit_mm_and_opcode (opcode_mm_table[mm]), ModRM, imm8.  Register type, id and size are arbitrary; the strict validator
+   (C13's model) runs first. *)
+Record shiftf := mkShift { s_rtype : Z; s_rid : Z; s_size : Z; s_imm : Z }.
+
+(* Opcode::add_arith_by_size: `operator|=(mask[size & 0xF])`, a function-local table (transcribed; staleness-checked textually) *)
+Definition arith_by_size_mask (k : Z) : Z :=
+  if k =? 2 then Z.lor 1 x86c_opcode_pp_66 else if k =? 4 then 1 else if k =? 8 then Z.lor 1 x86c_opcode_w else 0.
+
+Inductive shrow := ShRow (npp mm_size opc : Z) | ShOther | ShStuck.
+Definition bind_s (o : option Z) (f : Z -> shrow) : shrow := match o with Some v => f v | None => ShStuck end.
+
+(* the table reads of one instruction id and one size class (size & 15) *)
+Definition x86_shift_row_at (id k : Z) : shrow :=
+  bind_s (lookup x86_inst_encoding id) (fun enc =>
+  if negb (enc =? x86c_encoding_x86_rot) then ShOther else
+  bind_s (lookup x86_inst_main_idx id) (fun mi =>
+  bind_s (lookup x86_main_opcode_table mi) (fun opc0 =>
+  let opc := Z.lor opc0 (arith_by_size_mask k) in
+  let pp := Z.land (Z.shiftr opc x86c_pp_shift) x86c_pp_index_max in
+  bind_s (lookup x86_opcode_pp_table pp) (fun _ =>
+  bind_s (lookup x86_opcode_mm_table (Z.land (Z.shiftr opc x86c_mm_shift) x86c_mm_index_max)) (fun mm_size =>
+  ShRow (if pp =? 0 then 0 else 1) mm_size opc))))).
+
+Definition x86_norm_id (inst_id : Z) : Z := if x86c_inst_id_count <=? inst_id then 0 else inst_id.
+
+Definition x86_shift_imm_encode (x64 long : bool) (inst_id : Z) (f : shiftf) : mres :=
+  match x86_shift_row_at (x86_norm_id inst_id) (Z.land (s_size f) 15) with
+  | ShStuck => MStuck
+  | ShOther => MUnsupported
+  | ShRow npp mm_size opc =>
+      let is8 := s_size f =? 1 in
+      let hi := s_rtype f =? x86c_reg_type_gp8hi in
+      let opt := Z.lor (if x64 then 0 else x86c_opt_invalid_rex)
+                       (if is8 then (if hi then x86c_opt_invalid_rex else if 4 <=? s_rid f then x86c_opt_rex else 0) else 0) in
+      let rb := if is8 && hi then s_rid f + 4 else s_rid f in
+      let imm8 := Z.land (s_imm f) 255 in
+      let imm_size := if (imm8 =? 1) && negb long then 0 else 1 in
+      let rex := Z.lor (Z.shiftr (Z.lor opc opt) x86c_rex_shift) (Z.shiftr (Z.land rb 8) 3) in
+      if x86c_byte_invalid_rex <? rex then MErr kInvalidRexPrefix else
+      let nrex := if Z.land rex 127 =? 0 then 0 else 1 in
+      MOk (npp + nrex + mm_size + 2 + imm_size) 0
+  end.
+
+Definition validate_shift_imm (x64 long : bool) (inst_id : Z) (f : shiftf) : Z :=
+  Z.of_N (validate x86_vtables false x64 false
+            {| vi_id := Z.to_N inst_id; vi_options := (if long then 32%N else 0%N); vi_extra_type := 0%N; vi_extra_id := 0%N |}
+            [OReg (Z.to_N (s_rtype f)) (Z.to_N (s_rid f)); OImm (s_imm f)]).
+
+Definition x86_shift_imm (x64 long : bool) (inst_id : Z) (f : shiftf) : mres :=
+  let e := validate_shift_imm x64 long inst_id f in
+  if e =? 0 then x86_shift_imm_encode x64 long inst_id f else MErr e.
+
+Definition shift_cmd (a : arch) (s : state) (inst_id : Z) (f : shiftf) : option cmd :=
+  match x86_shift_imm (match a with X86_64 => true | _ => false end) (Z.testbit (os_options (st_one s)) 5) inst_id f with
+  | MOk n dr => Some (CInst (EncOk n None false dr 0 0))
+  | MErr e => Some (CInst (EncErr e))
+  | MStuck | MUnsupported => None
+  end.
+
+(* ---------------------------------------------------------------- EVEX / VEX + VSIB: vgatherdps v {k}, [base + v*s + d]
+   the two-operand (AVX-512) form of kEncodingVexRmvRm_VM with the mask in the emitter's extra register: EmitVexEvexM
+   builds the prefix word `x`; EVEX is selected by `x & kEvexBits` (register ids >= 16 -> R' / X', LL = 2 (512-bit), the
+   mask id aaa), then cdisp8_shl_table[TT|W|LL] gives the compressed-disp8 scale used by EmitModVSib.  The VEX branch
+   (no EVEX bit) is computed too.  Options are 0 (the generator resets the one-shot state first). *)
+Definition kEvexBits := 2162131216.      (* 0x80DF8110 *)
+Definition mod32 (v : Z) : Z := v mod 2 ^ 32.
+
+Definition x86_vgather2_encode (x64 : bool) (kid : Z) (v : vsibf) : mres :=
+  let m := v_mem v in
+  bind_l (lookup x86_mem_info_table (m_btype m + 32 * m_itype m)) (fun rm_info =>
+  bind_l (lookup x86_segment_prefix_table (m_seg m)) (fun segp =>
+  bind_l (lookup x86_ll_by_reg_type_table (m_itype m)) (fun ll_v =>
+  bind_l (lookup x86_ll_by_size_div_16_table (v_dsize v / 16)) (fun ll_s =>
+  bind_l (lookup x86_inst_alt_idx x86c_vgatherdps_id) (fun ai =>
+  bind_l (lookup x86_alt_opcode_table ai) (fun opc0 =>
+  if negb (x86c_vgatherdps_has_vex =? 1) || negb (x86c_vgatherdps_prefer_evex =? 0) || negb (x86c_vgatherdps_vsib =? 1) then MUnsupported else
+  let opc := Z.lor opc0 (Z.max ll_v ll_s) in
+  let nseg := if segp =? 0 then 0 else 1 in
+  let nao := if Z.land rm_info (if x64 then 128 else 64) =? 0 then 0 else 1 in
+  let rb := if 1 <? m_btype m then m_bid m else 0 in
+  let rx := if 1 <? m_itype m then m_iid m else 0 in
+  let x := Z.lor (Z.land (Z.shiftl (v_dst v) 4) 63872)                      (* 0xF980 *)
+          (Z.lor (Z.land (Z.shiftl rx 3) 64)
+          (Z.lor (Z.land (Z.shiftl rx 15) 524288)                           (* 0x80000 *)
+          (Z.lor (Z.land (Z.shiftl rb 2) 32)
+          (Z.lor (Z.shiftr (Z.land opc (x86c_ll_mask + x86c_mm_mask)) x86c_mm_shift)
+                 (mod32 (Z.shiftl kid 16)))))) in
+  if Z.land rm_info 2 =? 0 then MErr kInvalidInstruction else                (* VSIB without an index register *)
+  if Z.testbit x 20 then MUnsupported else                                   (* a mask id with bit 4 aliases the broadcast bit *)
+  let rel := sext 32 (m_off m) in
+  let tail (pre cd_shift : Z) : mres :=
+    if negb (Z.land rm_info 1 =? 0) then
+      if (rel =? 0) && negb (Z.land rb 7 =? 5) then MOk (pre + 2) 0 else
+      let cdo := Z.shiftr rel cd_shift in
+      if is_int8 cdo && (rel =? sext 32 (Z.shiftl (mod32 cdo) cd_shift)) then MOk (pre + 3) 0 else MOk (pre + 6) 0
+    else if Z.land rm_info 48 =? 0 then MOk (pre + 6) 0
+    else if x64 then MErr kInvalidAddress
+    else MUnsupported in
+  if negb (Z.land x kEvexBits =? 0) then
+    let ll := (Z.shiftr x 21) mod 4 in
+    let ttwll := 8 * ((Z.shiftr opc x86c_cdtt_shift) mod 4) + 4 * ((Z.shiftr opc x86c_w_shift) mod 2) + ll in
+    bind_l (lookup x86_cdisp8_shl_table ttwll) (fun cd =>
+    tail (nseg + nao + 5) (Z.shiftr (Z.land (opc + cd) x86c_cdshl_mask) x86c_cdshl_shift))
+  else
+    let wbit := if Z.testbit opc x86c_w_shift then 32768 else 0 in
+    let vex3 := negb (Z.land (Z.lor x wbit) 32894 =? 0) in                   (* 0x807E; kX86_Vex3 is not set *)
+    tail (nseg + nao + (if vex3 then 4 else 3)) 0)))))).
+
+Definition validate_vgather2 (x64 : bool) (inst_id etype kid : Z) (v : vsibf) : Z :=
+  let m := v_mem v in
+  let off := if m_btype m =? 0 then sext 64 (m_off m) else sext 32 (m_off m) in
+  Z.of_N (validate x86_vtables false x64 false
+            {| vi_id := Z.to_N inst_id; vi_options := 0%N; vi_extra_type := Z.to_N etype; vi_extra_id := Z.to_N kid |}
+            [OReg (Z.to_N (v_type v)) (Z.to_N (v_dst v));
+             OMem (Z.to_N (m_size m)) (Z.to_N (m_btype m)) (Z.to_N (m_bid m)) (Z.to_N (m_itype m)) (Z.to_N (m_iid m)) off
+                  (Z.to_N (m_seg m)) 0%N false]).
+
+Definition x86_vgather2 (x64 : bool) (inst_id etype kid : Z) (v : vsibf) : mres :=
+  if negb (inst_id =? x86c_vgatherdps_id) then MUnsupported else
+  let e := validate_vgather2 x64 inst_id etype kid v in
+  if e =? 0 then x86_vgather2_encode x64 kid v else MErr e.
+
+(* the extra register as the emitter holds it: the register type is read from the signature when it is a register operand *)
+Definition extra_type_of (sig : Z) : Z := if Z.land sig 7 =? 1 then Z.land (Z.shiftr sig 3) 31 else 0.
+
+Definition vsib2_cmd (a : arch) (s : state) (inst_id : Z) (v : vsibf) : option cmd :=
+  let one := st_one s in
+  match x86_vgather2 (match a with X86_64 => true | _ => false end) inst_id (extra_type_of (os_extra_sig one)) (os_extra_id one) v with
+  | MOk n dr => Some (CInst (EncOk n None false dr 0 0))
+  | MErr e => Some (CInst (EncErr e))
+  | MStuck | MUnsupported => None
+  end.
